@@ -56,7 +56,8 @@ class Variables:
         self._variables[name] = value
 
     def _unset(self, name: str) -> None:
-        self._variables.pop(name)
+        # snowflake doesn't error when the variable doesn't exist
+        self._variables.pop(name, None)
 
     def inline_variables(self, sql: str) -> str:
         for name, value in self._variables.items():
